@@ -167,7 +167,10 @@ theorem c15_x_retention_and_cache :
     shrinkLoop = ["for size > fm.config.TotalSize", "outsider := fm.shiftFirstFrac()", "if outsider == nil { break }",
       "size -= outsider.Info().FullSize()"] ∧
       shiftFirst = ["outsider := fm.fracs[0].instance", "fm.fracs[0] = nil", "fm.fracs = fm.fracs[1:]"] ∧
-      saveCacheCalls = ["os.CreateTemp", "tmp.Write", "os.Rename"] := by decide
+      saveCacheCalls = ["os.CreateTemp", "tmp.Write", "os.Rename"] ∧
+      -- a cache entry is trusted (`cached = true` in `startupCached`) only when it carries the index size; an entry
+      -- without sizes (older format, zeroed) is ignored and the header is read from the index
+      newSealedFastPath = "info != nil && info.IndexOnDisk > 0" := by decide
 
 /-! ## Non-vacuity -/
 
